@@ -139,6 +139,58 @@ def simulated_write(fmt, records, wp, simfile, append=False):
 
 
 # =============================================================================================
+# "written by another program": legal re-encodings of the reference image that chython's own writers never produce
+
+def apply_foreign(fmt, text, extents, spec):
+    kind = spec.get('kind')
+    pieces, new_ext, pos, last = [], [], 0, 0
+    for (a, b) in extents:
+        pieces.append(text[last:a])
+        pos += a - last
+        rec = text[a:b]
+        if kind == 'v3000wrap' and fmt in ('esdf', 'erdf'):
+            out = []
+            width = spec.get('width', 40)
+            for line in rec.split('\n'):
+                # only atom and bond lines are wrapped (the lines real programs wrap); COUNTS / BEGIN / END stay whole
+                while line.startswith('M  V30 ') and len(line) > width and line[7:8].isdigit():
+                    k = line.rfind(' ', 8, width)
+                    if k <= 8:
+                        break
+                    if spec.get('blank_first'):
+                        out.append(line[:k] + '-')            # continuation line starts with the blank
+                        line = 'M  V30 ' + line[k:]
+                    else:
+                        out.append(line[:k + 1] + '-')        # blank stays in front of the dash
+                        line = 'M  V30 ' + line[k + 1:]
+                out.append(line)
+            rec = '\n'.join(out)
+        pieces.append(rec)
+        new_ext.append((pos, pos + len(rec)))
+        pos += len(rec)
+        last = b
+    pieces.append(text[last:])
+    text = ''.join(pieces)
+    if kind == 'no_final_delimiter' and fmt in ('sdf', 'esdf') and new_ext:
+        a, b = new_ext[-1]
+        tail = text[a:b]
+        if tail.endswith('$$$$\n'):
+            tail = tail[:-5]
+            if spec.get('no_newline') and tail.endswith('\n'):
+                tail = tail[:-1]
+            text = text[:a] + tail
+            new_ext[-1] = (a, a + len(tail))
+    if kind == 'crlf':
+        # every line feed becomes CR LF: offsets move by the number of line feeds in front of them
+        import bisect
+        nl = [i for i, c in enumerate(text) if c == '\n']
+        shift = lambda x: x + bisect.bisect_left(nl, x)   # noqa: E731
+        new_ext = [(shift(a), shift(b)) for a, b in new_ext]
+        text = text.replace('\n', '\r\n')
+    return text, new_ext
+
+
+# =============================================================================================
 # stored-byte damage with per-byte ownership
 
 class Image:
@@ -305,6 +357,16 @@ def open_reader(fmt, simfile, rp):
     if rp.get('buffer_size') and fmt != 'mrv':
         kw['buffer_size'] = rp['buffer_size']
     bs = rp.get('bufsize', 8192)
+    if rp.get('via') == 'pathlib':
+        # a real file handed over as pathlib.Path (the readers open it through Path.open; no raw-level faults here)
+        from pathlib import Path
+        d = env.scratch_dir('c11-%d' % os.getpid())
+        path = os.path.join(d, 'pathlib.' + ('mrv' if fmt == 'mrv' else 'sdf' if fmt in ('sdf', 'esdf') else 'rdf'))
+        with open(path, 'wb') as f:
+            f.write(bytes(simfile.data))
+        if fmt == 'mrv':
+            return _cls('MRVRead')(Path(path), **kw), raw
+        return _cls(FORMATS[fmt]['reader'])(Path(path), **kw), raw
     if rp.get('via') == 'open':
         import chython.files.mdl.read as MR
         import chython.files.MRVrw as MV
@@ -372,6 +434,11 @@ def sequential_read(fmt, simfile, rp):
             exc = e
     except Exception as e:
         exc = e
+    finally:
+        try:
+            reader.close(force=True) if rp.get('via') in ('pathlib',) else None
+        except Exception:
+            pass
     return out, exc, raw
 
 
@@ -470,13 +537,22 @@ def _execute(trace, probes, scratch):
     if not records:
         return
     expected = [record_view(r, fmt) for r in records]
+    foreign = trace.get('foreign')
+    if foreign:
+        text, extents = apply_foreign(fmt, text, extents, foreign)
+        probes['foreign:' + foreign['kind']] += 1
     ref = text.encode('utf-8')
     probes['records_written'] += len(records)
     probes['fmt:' + fmt] += 1
 
     # ---- write phase on the simulated disk
     sf = SimFile()
-    res = simulated_write(fmt, records, wp, sf)
+    if foreign:
+        sf.data += ref          # another program wrote this file; nothing of chython's writers is involved
+        sf.sync()
+        res = {'crashed': False, 'failed': False, 'written': len(records), 'synced': len(records)}
+    else:
+        res = simulated_write(fmt, records, wp, sf)
     for k, v in sf.stats.items():
         if v and k in ('short_writes', 'write_errors'):
             probes['fault:' + k] += v
@@ -584,7 +660,7 @@ def _execute(trace, probes, scratch):
     probes['lost_or_damaged_records'] += img.n - len(intact)
 
     # ---- the string entry points mdl_mol(text) / mdl_rxn(text) on the blocks of a clean file
-    if not faulty and not trace.get('append') and fmt != 'mrv':
+    if not faulty and not trace.get('append') and fmt != 'mrv' and not foreign:
         from chython import mdl_mol, mdl_rxn
         for i, (a, b) in enumerate(extents):
             block = text[a:b]
@@ -663,6 +739,33 @@ def _execute(trace, probes, scratch):
                     elif st is None:
                         probes['stereo_excluded_explicit_h'] += 1
         else:
+            # a file that was only truncated (crash, failed write, tear - no other byte damage) may lose its torn tail record,
+            # but whatever structure the reader returns must be one that was written
+            tear_only = not trace.get('append') and all(op['kind'] == 'tear' and op.get('fill', 'cut') == 'cut'
+                                                        for op in trace.get('damage') or []) and \
+                (wp.get('crash') or {}).get('fill', 'cut') == 'cut'
+            if tear_only:
+                def struct(v):
+                    if v.get('kind') == 'rxn':
+                        return ('rxn', [[(m['atoms'], m['bonds']) for m in v[r]] for r in 'rpa'])
+                    return ('mol', v['atoms'], v['bonds'])
+                known_structs = [struct(e) for e in expected]
+
+                def salvaged(sv):
+                    # readers run with ignore=True, which documents that unparsable member molecules of a reaction are
+                    # dropped: a torn reaction may come back with its torn member missing, never with a different member
+                    if sv[0] != 'rxn':
+                        return False
+                    for ks in known_structs:
+                        if ks[0] == 'rxn' and all(_is_subseq(sv[1][r], ks[1][r]) for r in range(3)):
+                            return True
+                    return False
+                for k, v in enumerate(views):
+                    if struct(v) not in known_structs and not salvaged(struct(v)):
+                        raise Violation('torn-record-returned-as-structure',
+                                        f'{fmt}: record {k} read from a truncated file is not one of the written records: '
+                                        f'{str(struct(v))[:200]}')
+                probes['tear_only_structures_checked'] += len(views)
             # the intact records must come back, in order, as a subsequence of what the reader yields
             j = 0
             need = list(intact)
@@ -689,6 +792,11 @@ def _execute(trace, probes, scratch):
             probes['intact_matched'] += matched
             if len(views) < len(intact) and not partial:
                 probes['reader_skipped'] += 1
+
+
+def _is_subseq(a, b):
+    it = iter(b)
+    return all(any(x == y for y in it) for x in a)
 
 
 def _tear_class(ref, extents, cut, fmt):
@@ -797,7 +905,7 @@ def _indexed_phase(fmt, data, expected, rp, probes, scratch):
                     if norm_meta(meta, fmt) != want_meta:
                         raise Violation('random-access-mismatch:metadata', f'{norm_meta(meta, fmt)!r} != {want_meta!r}')
                     blk = reader.read_block()
-                    if not blk or blk.encode() not in data:
+                    if not blk or blk.encode() not in data.replace(b'\r\n', b'\n'):
                         raise Violation('random-access-mismatch:block', 'read_block() is not a piece of the file')
                 elif k == 'reset':
                     reader.reset_index()
@@ -872,7 +980,14 @@ def generate(seed):
     wp['append_via'] = s.choice(['wrapper', 'open'])
     trace['write'] = wp
     mode = cfg['mode']
-    if mode == 'clean' and fmt != 'mrv' and s.random() < 0.3:
+    if mode in ('clean', 'indexed') and s.random() < 0.3:
+        k = s.choice(['v3000wrap', 'v3000wrap', 'no_final_delimiter', 'crlf'])
+        if (k == 'v3000wrap' and fmt in ('esdf', 'erdf')) or \
+                (k == 'no_final_delimiter' and fmt in ('sdf', 'esdf') and mode == 'clean') or \
+                (k == 'crlf' and fmt != 'mrv'):
+            trace['foreign'] = {'kind': k, 'width': s.choice([20, 30, 40, 60, 78]), 'blank_first': s.random() < 0.5,
+                                'no_newline': s.random() < 0.5}
+    if mode == 'clean' and fmt != 'mrv' and s.random() < 0.3 and not trace.get('foreign'):
         trace['append'] = [gen_record_spec(w, cfg, FORMATS[fmt]['rxn']) for _ in range(s.choice([1, 2]))]
     reads = []
     if mode == 'writefault':
@@ -917,7 +1032,7 @@ def generate(seed):
     rmodes = ['for', 'for', 'read', 'readn', 'next', 'structure']
     for _ in range(s.choice([1, 1, 2])):
         rp = {'mode': s.choice(rmodes), 'n': s.choice([1, 2, 3]), 'bufsize': s.choice([16, 128, 8192]),
-              'via': s.choice(['wrapper', 'open'])}
+              'via': s.choice(['wrapper', 'open', 'open', 'pathlib'])}
         if s.random() < 0.4:
             rp['chunk'] = s.choice([1, 3, 7, 64, 511])
         if mode == 'readfault':
@@ -1003,6 +1118,8 @@ def run_one(i, tier, base):
         out['sample'] = {k: trace[k] for k in ('seed', 'fmt', 'records', 'write', 'reads') if k in trace}
         if trace.get('damage'):
             out['sample']['damage'] = trace['damage']
+        if trace.get('foreign'):
+            out['sample']['foreign'] = trace['foreign']
     out['probes'] = probes
     out['digest'] = core.digest([trace, v, sorted(probes.items())])
     return out
@@ -1030,7 +1147,7 @@ def minimise(trace, budget_n=250):
             return fails(dict(t, **{key: items}))
         t[key] = core.ddmin(t[key], test, budget)
     # drop whole optional sections
-    for key in ('append', 'damage'):
+    for key in ('append', 'damage', 'foreign'):
         if t.get(key) and budget[0] > 0:
             budget[0] -= 1
             c = {k: v for k, v in t.items() if k != key}
@@ -1083,6 +1200,8 @@ def op_kinds(trace):
         kinds.append('write-error')
     if trace.get('append'):
         kinds.append('append')
+    if trace.get('foreign'):
+        kinds.append('foreign:' + trace['foreign']['kind'])
     for r in trace.get('reads') or []:
         if r.get('indexed'):
             kinds.append('indexed')
